@@ -511,7 +511,7 @@ fn m59() -> u8 {
     59
 }
 
-fn leap_text_enum(_t: Tier, shard: usize, sink: &mut dyn FnMut(LeapText) -> bool) {
+pub fn leap_text_enum(_t: Tier, shard: usize, sink: &mut dyn FnMut(LeapText) -> bool) {
     // every month end 1958-2040 and the day before it, at 23:59 and at other hours / minutes, six text forms
     let mut i = 0;
     for y in 1958..=2040 {
